@@ -602,14 +602,15 @@ var c03Expects = []struct {
 }
 
 type c03Case struct {
-	env      zooEnv
-	src      string
-	expect   int
-	fault    string
-	static   bool
-	goal     reflect.Type
-	refWell  bool
-	refClass string // the rule of the reference set that rejects it
+	env       zooEnv
+	src       string
+	expect    int
+	fault     string
+	static    bool
+	goal      reflect.Type
+	refWell   bool
+	refClass  string // the rule of the reference set that rejects it
+	nonStrict bool   // compiled with AllowUndefinedVariables()
 }
 
 func c03Envs() []zooEnv {
@@ -694,6 +695,32 @@ func runC03(c *Ctx) {
 		}
 		cases = append(cases, c03Case{env: e, src: g.untyped(1 + c.Rng.Intn(3)), expect: ex, static: false, goal: nil})
 	}
+	// non-strict configurations: AllowUndefinedVariables() on struct and map environments, typed maps
+	// (conf sets DefaultType to the element type): unknown names under operators, calls, builtins, closures
+	nsEnvs := c03NonStrictEnvs(envs)
+	for _, e := range nsEnvs {
+		for i, src := range c03NonStrictSrcs {
+			ex := 0
+			if i%7 == 3 {
+				ex = 1 + c.Rng.Intn(3)
+			}
+			cases = append(cases, c03Case{env: e, src: src, expect: ex, nonStrict: true})
+			if reflect.TypeOf(e.Val).Kind() == reflect.Map && i%3 == 0 {
+				cases = append(cases, c03Case{env: e, src: src, expect: ex}) // the same, strict
+			}
+		}
+		c.R.Count("nonstrict:fixed", len(c03NonStrictSrcs))
+	}
+	for i := 0; i < n/4; i++ {
+		g := &c03gen{rng: c.Rng}
+		e := nsEnvs[c.Rng.Intn(len(nsEnvs))]
+		ex := 0
+		if c.Rng.Intn(4) == 0 {
+			ex = 1 + c.Rng.Intn(3)
+		}
+		cases = append(cases, c03Case{env: e, src: g.untyped(1 + c.Rng.Intn(3)), expect: ex, nonStrict: true})
+		c.R.Count("nonstrict:random", 1)
+	}
 	// a few fixed probes (DESIGN section 6 #5, #14-16, #23)
 	for _, s := range []struct {
 		src string
@@ -728,7 +755,7 @@ func runC03(c *Ctx) {
 		if _, ok := envSxCache[cs.env.Name]; !ok {
 			envSxCache[cs.env.Name] = envSx(cs.env.Val)
 		}
-		reqs = append(reqs, L(A("c03-check"), A(c03Model()), envSxCache[cs.env.Name], SBool(true), A(c03Expects[cs.expect].name), nodeSx(tree.Node, false)).String())
+		reqs = append(reqs, L(A("c03-check"), A(c03Model()), envSxCache[cs.env.Name], SBool(!cs.nonStrict), A(c03Expects[cs.expect].name), nodeSx(tree.Node, false)).String())
 		reals[i] = realRes{true, c03RealCheck(cs)}
 	}
 	resp, err := c.AskAll(reqs)
@@ -781,6 +808,10 @@ func runC03(c *Ctx) {
 		if !reals[i].parsed {
 			continue
 		}
+		if cs.nonStrict {
+			c03OracleNonStrict(c, cs)
+			continue
+		}
 		refWell := strings.HasPrefix(refs[i], "(well")
 		if cs.fault == "" && cs.goal != nil && !refWell {
 			// the generator claims the expression is well typed, the reference rules disagree
@@ -800,7 +831,8 @@ func runC03(c *Ctx) {
 	}
 	c03IfaceArith(c)
 	c03Synthetic(c, envs[0])
-	for _, k := range []string{"check:accepted", "check:rejected", "oracle:static-runs", "oracle:mutants-rejected", "nested:well-typed", "nested:mutants"} {
+	for _, k := range []string{"check:accepted", "check:rejected", "oracle:static-runs", "oracle:mutants-rejected", "nested:well-typed", "nested:mutants",
+		"nonstrict:fixed", "nonstrict:random", "nonstrict:accepted", "nonstrict:typed-runs"} {
 		if c.R.Counters[k] == 0 {
 			c.R.Mismatch("generator", k, "", "counter is zero")
 		}
@@ -817,6 +849,7 @@ func c03RealCheck(cs c03Case) (out string) {
 	tree, _ := parser.Parse(cs.src)
 	cfg := conf.New(cs.env.Val)
 	cfg.Expect = c03Expects[cs.expect].kind
+	cfg.Strict = !cs.nonStrict
 	ty, err := checker.Check(tree, cfg)
 	if err != nil {
 		e := errSx(err)
@@ -827,6 +860,113 @@ func c03RealCheck(cs c03Case) (out string) {
 		return L(A("err"), line, col, A(errClassOf(e.List[3].Str())), canonTy(nodeSx(tree.Node, true))).String()
 	}
 	return L(A("ok"), cty(ty), canonTy(nodeSx(tree.Node, true))).String()
+}
+
+// ---- non-strict configurations
+
+var c03NonStrictSrcs = []string{
+	"Missing", "Missing + 1", "1 + Missing", "Missing + Missing", "Missing * 2.5", "len(Missing)", "Missing.x", "Missing.x.y", "Missing?.x",
+	"Missing()", "Missing(1, I)", "Missing(Gone)", "Missing.Foo()", "Missing.Foo(1)", "all(Ints, {# > Missing})", "all(Missing, {# > 1})",
+	"map(Missing, {#})", "map(Ints, {Missing})", "filter(Ints, {Missing})", "count(Missing, {Gone})", "Missing ? 1 : 2", "B ? Missing : 1",
+	"B ? 1 : Missing", "I == Missing", "Missing == nil", "Missing != Gone", "Missing in Ints", "I in Missing", "Missing[0]", "Ints[Missing]",
+	"Missing[1:2]", "Ints[Missing:]", "not Missing", "-Missing", "+Missing", "Missing and B", "Missing or Gone", "Missing matches \"a\"",
+	"Str + Missing", "Missing contains \"a\"", "Missing..3", "1..Missing", "Fi(Missing)", "Fs(Missing)", "Ff(Missing + 1)", "[Missing, 1]",
+	"{a: Missing}", "{(Missing): 1}", "Missing < 1", "Missing < \"a\"", "Missing % 2", "Missing ** 2", "I", "I + J", "I + 1.5", "Str", "len(Str)",
+	"I.x", "I()", "Str + \"a\"", "I > 0 ? I : Missing", "len(Missing) + Missing", "Missing.x + I", "all(Missing, {#.x > Gone})", "nil", "Missing?.Foo()",
+}
+
+// c03NonStrictEnvs: struct environments (value and pointer), map[string]interface{}, typed maps
+func c03NonStrictEnvs(envs []zooEnv) []zooEnv {
+	fi := func(i int) int { return i + 1 }
+	return []zooEnv{
+		{"EnvScalars", envs[0].Val}, {"*EnvScalars", envs[2].Val},
+		{"ns:map[string]interface{}", map[string]interface{}{"I": 1, "J": 2, "Str": "s", "B": true, "Ints": []int{1, 2, 3}, "Fi": fi, "nilv": nil}},
+		{"ns:map[string]int", map[string]int{"I": 1, "J": 2}},
+		{"ns:map[string]string", map[string]string{"Str": "a", "I": "i"}},
+		{"ns:map[string][]int", map[string][]int{"Ints": {1, 2, 3}}},
+		{"ns:EnvNamedMap", EnvNamedMap{"I": 1, "Str": "s"}},
+	}
+}
+
+// c03OracleNonStrict: Compile with AllowUndefinedVariables() never panics; and where the configuration
+// still makes a static claim — a typed map environment gives every unknown name the element type — an
+// accepted program whose type is not an interface runs, or fails for a value-dependent reason, and yields
+// a value of the reported type.
+func c03OracleNonStrict(c *Ctx, cs c03Case) {
+	in := c03Input{cs.env.Name + " (non-strict)", cs.src, c03Expects[cs.expect].name, ""}
+	opts := []expr.Option{expr.Env(cs.env.Val), expr.AllowUndefinedVariables(), expr.Optimize(false)}
+	if cs.expect != 0 {
+		opts = append(opts, c03Expects[cs.expect].opt())
+	}
+	var cerr error
+	panicked := ""
+	func() {
+		defer func() {
+			if r := recover(); r != nil {
+				panicked = fmt.Sprint(r)
+			}
+		}()
+		_, cerr = expr.Compile(cs.src, opts...)
+	}()
+	if panicked != "" {
+		violateKeyed16(c, Violation{What: "expr.Compile panics instead of returning an error", Key: "c03:compile-panics:non-strict", Input: in, Expect: "an error or a program", Got: firstLine16(panicked)})
+		return
+	}
+	if cerr != nil {
+		return
+	}
+	c.R.Count("nonstrict:accepted", 1)
+	et := reflect.TypeOf(cs.env.Val)
+	if et.Kind() != reflect.Map || et.Elem().Kind() == reflect.Interface {
+		return // every unknown name is interface{}-typed (and a struct cannot be asked for a missing field): no static claim
+	}
+	tree, _ := parser.Parse(cs.src)
+	cfg := conf.New(cs.env.Val)
+	cfg.Strict = false
+	ty, terr := checker.Check(tree, cfg)
+	if terr != nil || ty == nil || ty.Kind() == reflect.Interface || strings.ContainsAny(cs.src, "({[.") && strings.Contains(cs.src, "nil") {
+		return
+	}
+	rv := compileRunOpts(cs.src, cs.env.Val, opts)
+	c.R.Count("nonstrict:typed-runs", 1)
+	if !rv.ran {
+		if runErrClass(rv.rerr) == "type" {
+			key := "c03:non-strict-typed-map:type-error"
+			if strings.Contains(rv.rerr, "cannot get") || strings.Contains(rv.rerr, "reflect.Value.Call") || c03CallsNonBuiltin(cs.src) {
+				key = "c03:non-strict:undefined-function-call" // a call of a name that is no function of the environment
+			}
+			violateKeyed16(c, Violation{What: "a program accepted over a typed map environment with undefined variables allowed fails at run time for a type reason", Key: key, Input: in,
+				Expect: "success or a value-dependent failure (static type " + ty.String() + ")", Got: rv.rerr})
+		} else if runErrClass(rv.rerr) == "unknown" {
+			c.R.Mismatch("c03/run-error-class", cs.src, "", rv.rerr)
+		}
+		return
+	}
+	if cs.expect == 0 && (rv.out == nil || reflect.TypeOf(rv.out) != ty) {
+		violateKeyed16(c, Violation{What: "the result's dynamic type differs from the type the checker reported (typed map environment, undefined variables allowed)", Key: "c03:dynamic-type-differs:" + c03DynKey(cs.src), Input: in,
+			Expect: "a value of type " + ty.String(), Got: fmt.Sprintf("%T", rv.out)})
+	}
+}
+
+// c03CallsNonBuiltin: does the source call a name (not a method, not a builtin)?  Over a typed map
+// environment without function-typed elements every such call is a call of an undefined function, whose
+// arguments the checker does not even visit.
+func c03CallsNonBuiltin(src string) bool {
+	for i := 0; i < len(src); i++ {
+		if src[i] != '(' || i == 0 {
+			continue
+		}
+		j := i
+		for j > 0 && (src[j-1] == '_' || src[j-1] >= '0' && src[j-1] <= '9' || src[j-1] >= 'a' && src[j-1] <= 'z' || src[j-1] >= 'A' && src[j-1] <= 'Z') {
+			j--
+		}
+		name := src[j:i]
+		if name == "" || exprReserved[name] || (j > 0 && src[j-1] == '.') {
+			continue
+		}
+		return true
+	}
+	return false
 }
 
 // c03Synthetic: trees the parser never builds (a Patch visitor or the optimizer can): builtins with a
